@@ -123,11 +123,23 @@ theorem exec_noRep (s : Sys) (t : Nat) (op : Op) (hop : ∀ c, op ≠ .setReport
     | none => exact q h rfl
     | some s' => exact q (h.register t hr) rfl
   | root v n tr sp b =>
-    simp only [exec]
+    simp only [exec, Sys.rootOp]
     split
     · exact q (h.setSpanNone v) rfl
     · rename_i hn
       exact absurd (by simp [h.ready]) hn
+  | rootFrom v n p tp =>
+    simp only [exec]
+    cases hg : assocGet s.spans p with
+    | none => exact q h rfl
+    | some sv =>
+      have := h.getSpan hg
+      subst this
+      exact q h rfl
+  | rootFromLocal v n tp =>
+    simp only [exec]
+    rw [(h.lines t).currentToken_none]
+    exact q h rfl
   | child1 v n p =>
     simp only [exec]
     cases hg : assocGet s.spans p with
